@@ -34,6 +34,7 @@ type Op struct {
 	I []int64   `json:"i,omitempty"` // integer parameters
 	F []float64 `json:"f,omitempty"` // float parameters
 	P []string  `json:"p,omitempty"` // perturbations attached to this operation
+	N int       `json:"n,omitempty"` // which path of an input a single-path argument takes (index modulo the number of paths)
 }
 
 func (o *Op) i(k int) int64 {
